@@ -899,6 +899,14 @@ def r12_every_definition_looks_at_the_shared_names(ctx, rule="C13.R12"):
             n += 1
             doms = [mir.callee_path(t2).split("::")[-1] for b2, t2 in body.calls()
                     if b2 != b and body.dominates(b2, b) and reaches(t2.get("res") or mir.callee_of(t2))]
+            if not doms:
+                # a private helper that is handed what the look-up found: every call of it (in its file) is
+                # dominated by the look-up in the caller
+                sites = [(g, b3) for g in prog.fns.values() if g.body is not None and g.file == f.file and g.id != f.id
+                         for b3, t3 in g.body.calls() if (t3.get("res") or mir.callee_of(t3)) == f.id]
+                if sites and all(any(b4 != b3 and g.body.dominates(b4, b3) and reaches(t4.get("res") or mir.callee_of(t4))
+                                     for b4, t4 in g.body.calls()) for g, b3 in sites):
+                    doms = ["(in the callers: %s)" % sorted({g.name for g, _b in sites})]
             name = f.path.split("::", 1)[1]
             ctx.decide(bool(doms), rule, "%s:%s:%s" % (rule, name, last), "%s:%s" % (f.file, t.get("ln")),
                        "dominated by %s, which reaches %s" % (doms[:2], [x.name for x in lookups][:2]),
